@@ -171,7 +171,9 @@ def inplace_on_state_values(ctx, funcs=None):
                 return alias(e.value)
             if isinstance(e, _ast.Subscript):
                 return alias(e.value)  # basic indexing gives a view
-            if isinstance(e, _ast.Call) and isinstance(e.func, _ast.Attribute) and e.func.attr in ("view", "reshape", "squeeze", "unsqueeze", "expand", "t", "detach", "flatten", "transpose", "permute", "numpy", "view_as", "expand_as", "narrow", "select", "unbind", "ravel"):
+            if isinstance(e, _ast.Call) and isinstance(e.func, _ast.Attribute) and e.func.attr in ("view", "reshape", "squeeze", "unsqueeze", "expand", "t", "detach", "flatten", "transpose", "permute", "numpy", "view_as", "expand_as", "narrow", "select", "unbind", "ravel",
+                                                                                                  # conversions that return the tensor itself when nothing has to change
+                                                                                                  "float", "double", "to", "type_as", "contiguous", "cpu", "requires_grad_"):
                 return alias(e.func.value)
             if isinstance(e, _ast.IfExp):
                 return alias(e.body) or alias(e.orelse)
